@@ -87,53 +87,44 @@ private theorem evalLets_total (o : Oracles) (ctx : Ctx) (ls : List (String × P
     · exact ih _ h
     · exact ih _ h
 
-private theorem pyLower_err (o : Oracles) (s : String) (sc sc' : Scope) (e : Err)
-    (h : pyLower o s sc = (.error e, sc')) : ModelGaveUp e := by
+private theorem pyLower_err (o : Oracles) (s : String) (e : Err)
+    (h : pyLower o s = .error e) : ModelGaveUp e := by
   unfold pyLower at h
   by_cases hA : isAsciiStr s = true
-  · simp [hA, pure, M.pure] at h
-  · cases ho : o.lower s with
-    | some r =>
-      have hA' : isAsciiStr s = false := by simpa using hA
-      simp [hA', ho, pure, M.pure] at h
+  · simp [hA, pure, Except.pure] at h
+  · have hA' : isAsciiStr s = false := by simpa using hA
+    cases ho : o.lower s with
+    | some r => simp [hA', ho, pure, Except.pure] at h
     | none =>
-      have hA' : isAsciiStr s = false := by simpa using hA
-      simp only [hA', ho, need, raise, Bool.false_eq_true, if_false, Prod.mk.injEq, Except.error.injEq] at h
-      exact ⟨_, h.1.symm⟩
+      simp only [hA', ho, needE, Bool.false_eq_true, if_false, Except.error.injEq] at h
+      exact ⟨_, h.symm⟩
 
-private theorem pyStr_err (o : Oracles) (v : Val) (sc sc' : Scope) (e : Err)
-    (h : pyStr o v sc = (.error e, sc')) : ModelGaveUp e := by
+private theorem pyStr_err (o : Oracles) (v : Val) (e : Err)
+    (h : pyStr o v = .error e) : ModelGaveUp e := by
   cases v with
   | flt b =>
     cases ho : o.fltStr b with
-    | some r => simp [pyStr, ho, pure, M.pure] at h
+    | some r => simp [pyStr, ho, pure, Except.pure] at h
     | none =>
-      simp only [pyStr, ho, need, raise, Prod.mk.injEq, Except.error.injEq] at h
-      exact ⟨_, h.1.symm⟩
-  | none => simp [pyStr, pure, M.pure] at h
-  | bool b => simp [pyStr, pure, M.pure] at h
-  | int i => simp [pyStr, pure, M.pure] at h
-  | str s => simp [pyStr, pure, M.pure] at h
-  | date d => simp [pyStr, pure, M.pure] at h
-  | tdelta d => simp only [pyStr, raise, Prod.mk.injEq, Except.error.injEq] at h; exact ⟨_, h.1.symm⟩
-  | list xs => simp only [pyStr, raise, Prod.mk.injEq, Except.error.injEq] at h; exact ⟨_, h.1.symm⟩
-  | row kvs => simp only [pyStr, raise, Prod.mk.injEq, Except.error.injEq] at h; exact ⟨_, h.1.symm⟩
-  | gen xs => simp only [pyStr, raise, Prod.mk.injEq, Except.error.injEq] at h; exact ⟨_, h.1.symm⟩
-  | other k => simp only [pyStr, raise, Prod.mk.injEq, Except.error.injEq] at h; exact ⟨_, h.1.symm⟩
+      simp only [pyStr, ho, needE, Except.error.injEq] at h
+      exact ⟨_, h.symm⟩
+  | none => simp [pyStr, pure, Except.pure] at h
+  | bool b => simp [pyStr, pure, Except.pure] at h
+  | int i => simp [pyStr, pure, Except.pure] at h
+  | str s => simp [pyStr, pure, Except.pure] at h
+  | date d => simp [pyStr, pure, Except.pure] at h
+  | tdelta d => simp only [pyStr, raiseE, Except.error.injEq] at h; exact ⟨_, h.symm⟩
+  | list xs => simp only [pyStr, raiseE, Except.error.injEq] at h; exact ⟨_, h.symm⟩
+  | row kvs => simp only [pyStr, raiseE, Except.error.injEq] at h; exact ⟨_, h.symm⟩
+  | gen xs => simp only [pyStr, raiseE, Except.error.injEq] at h; exact ⟨_, h.symm⟩
+  | other k => simp only [pyStr, raiseE, Except.error.injEq] at h; exact ⟨_, h.symm⟩
 
 private theorem tagOf_total (o : Oracles) (v : Val) (err : Err) (h : tagOf o v = .error err) : ModelGaveUp err := by
   unfold tagOf at h
-  split at h
-  · cases h
-  · rename_i e sc hq
-    simp only [Except.error.injEq] at h; subst h
-    simp only [bind, M.bind] at hq
-    split at hq
-    · rename_i a s' hs
-      exact pyLower_err o _ _ _ _ hq
-    · rename_i e' s' hs
-      simp only [Prod.mk.injEq, Except.error.injEq] at hq
-      rw [← hq.1]; exact pyStr_err o v _ _ _ hs
+  simp only [bind, Except.bind] at h
+  cases hs : pyStr o v with
+  | error e => rw [hs] at h; simp only [Except.error.injEq] at h; subst h; exact pyStr_err o v _ hs
+  | ok s' => rw [hs] at h; exact pyLower_err o _ _ h
 
 private theorem foldTags_total (o : Oracles) (xs : List Val) (acc : List String) (err : Err)
     (h : xs.foldlM (fun acc x => do let s ← tagOf o x; pure (acc ++ [s])) acc = (.error err : Except Err (List String))) :
@@ -159,17 +150,16 @@ private theorem resolveTags_total (o : Oracles) (ctx : Ctx) (ts : List TagSpec) 
     | blank => simp only [resolveTags] at h; exact ih h
     | static text =>
       simp only [resolveTags, bind, Except.bind] at h
-      cases hl : pyLower o text [] with
-      | mk r sc =>
+      cases hl : pyLower o text with
+      | error e =>
         rw [hl] at h
-        cases r with
-        | error e =>
-          simp only [Except.error.injEq] at h; subst h; exact pyLower_err o text [] sc _ hl
-        | ok l =>
-          simp only at h
-          cases hm : resolveTags true o ctx ts with
-          | error e2 => rw [hm] at h; simp only [Except.error.injEq] at h; subst h; exact ih hm
-          | ok more => rw [hm] at h; simp [pure, Except.pure] at h
+        simp only [Except.error.injEq] at h; subst h; exact pyLower_err o text _ hl
+      | ok l =>
+        rw [hl] at h
+        simp only at h
+        cases hm : resolveTags true o ctx ts with
+        | error e2 => rw [hm] at h; simp only [Except.error.injEq] at h; subst h; exact ih hm
+        | ok more => rw [hm] at h; simp [pure, Except.pure] at h
     | dynamic e =>
       simp only [resolveTags] at h
       split at h
